@@ -159,9 +159,25 @@ var (
 	c15Weights  = []int{0, 1, 9, 10, 11, 50, 80, 99, 100, 101, 150, 200, -5}
 )
 
+// c15Fixed are the histories on which the code violated the property before the fix
+// (label coincidence "n"+"10" = "n1"+"0" under the default hash), replayed on every run.
+func c15Fixed() []verifh.Section {
+	probes := make([]string, 0, 200)
+	for j := 0; j < 200; j++ {
+		probes = append(probes, fmt.Sprintf("i:%d", j))
+	}
+	cfg := "ctor=default hash=murmur mod=0 replicas=100 probes=" + strings.Join(probes, ",")
+	return []verifh.Section{
+		{Cfg: cfg, Ops: []string{"addr s:node1 10", "addr s:node 5", "remove s:node", "get i:7"}},
+		{Cfg: cfg, Ops: []string{"add s:node1", "add s:node", "remove s:node1", "add s:node1"}},
+		{Cfg: cfg, Ops: []string{"addr s:node 5", "add s:node1", "add s:x", "remove s:node", "addw s:node1 50", "remove s:x"}},
+		{Cfg: cfg, Ops: []string{"add i:1", "add i:11", "add s:1", "addr j:11 20", "remove t:1", "add p:11"}},
+	}
+}
+
 func c15Gen(r *verifh.Rng) []verifh.Section {
-	var secs []verifh.Section
-	nsec := verifh.Scale(40, 400)
+	secs := c15Fixed()
+	nsec := verifh.Scale(80, 500)
 	for i := 0; i < nsec; i++ {
 		cfg := ""
 		switch x := r.Intn(10); {
@@ -201,9 +217,21 @@ func c15Gen(r *verifh.Rng) []verifh.Section {
 		}
 		var ops []string
 		nops := r.Range(3, verifh.Scale(16, 30))
+		var present []string
 		for j := 0; j < nops; j++ {
 			n := pop[r.Intn(len(pop))]
-			switch x := r.Intn(100); {
+			x := r.Intn(100)
+			if x >= 65 && x < 90 {
+				// removals mostly hit a node that was added before (by token; reprs may still coincide)
+				if len(present) > 0 && r.Chance(4, 5) {
+					k := r.Intn(len(present))
+					n = present[k]
+					present = append(present[:k], present[k+1:]...)
+				}
+			} else if x < 65 {
+				present = append(present, n)
+			}
+			switch {
 			case x < 30:
 				ops = append(ops, "add "+n)
 			case x < 50:
